@@ -157,10 +157,84 @@ func ecsOption(rng *rand.Rand, scope uint8) OptSpec {
 	return OptSpec{dns.EDNS0SUBNET, hex.EncodeToString(append([]byte{0, 1, byte(bits), scope}, a...))}
 }
 
+// knownClientOption: the option codes the server has a rule of its own for
+// (cookie, NSID request, client subnet, keepalive, padding). Everything else
+// a client may put into its OPT is "foreign" to the server: it must ignore it
+// and never send it back.
+func knownClientOption(code uint16) bool {
+	switch code {
+	case dns.EDNS0COOKIE, dns.EDNS0NSID, dns.EDNS0SUBNET, dns.EDNS0TCPKEEPALIVE, dns.EDNS0PADDING:
+		return true
+	}
+	return false
+}
+
+// foreignOptions draws 1–3 well-formed client options OUTSIDE the five codes
+// the server handles: the registered ones no recursive server answers (LLQ,
+// UL, DAU/DHU/N3U, EXPIRE, CHAIN, KEY-TAG, a client-sent EDE, client/server
+// tag, report-channel, zoneversion), reserved / unassigned registry codes and
+// the local/experimental range. Every payload has the length its decoder
+// demands (LLQ 18, UL 4|8, EXPIRE 0|4, EDE >= 2) so the packet stays valid
+// for every decoder; free-form payloads start with 'C' like the client's
+// padding, so they never equal an upstream-style option of the same code.
+func foreignOptions(rng *rand.Rand) []OptSpec {
+	free := func(n int) []byte { return append([]byte("C"), randBytes(rng, n)...) }
+	one := func() OptSpec {
+		var code uint16
+		var data []byte
+		switch rng.IntN(14) {
+		case 0: // LLQ (RFC 8764): version, opcode, error, id, lease
+			code, data = dns.EDNS0LLQ, randBytes(rng, 18)
+		case 1: // update lease
+			code, data = dns.EDNS0UL, randBytes(rng, []int{4, 8}[rng.IntN(2)])
+		case 2: // DAU / DHU / N3U (RFC 6975): algorithm list
+			code, data = []uint16{dns.EDNS0DAU, dns.EDNS0DHU, dns.EDNS0N3U}[rng.IntN(3)], randBytes(rng, 1+rng.IntN(6))
+		case 3: // EXPIRE (RFC 7314): empty in a query, or a stray value
+			code = dns.EDNS0EXPIRE
+			if rng.IntN(2) == 0 {
+				data = randBytes(rng, 4)
+			}
+		case 4: // CHAIN (RFC 7901): closest trust point
+			code, data = 13, wireName(fmt.Sprintf("c%d.chain.test.", rng.IntN(1000)))
+		case 5: // KEY-TAG (RFC 8145)
+			code, data = 14, randBytes(rng, 2*(1+rng.IntN(4)))
+		case 6: // an EDE sent BY the client (info-code the server never uses, 'C…' text)
+			code, data = dns.EDNS0EDE, append([]byte{0xC0, byte(rng.UintN(256))}, free(rng.IntN(20))...)
+		case 7: // client-tag / server-tag
+			code, data = uint16(16+rng.IntN(2)), randBytes(rng, 2)
+		case 8: // report-channel (RFC 9567) / zoneversion (RFC 9660)
+			if rng.IntN(2) == 0 {
+				code, data = 18, wireName("C-agent.report.test.")
+			} else { // label count, type, version (the decoder in use wants >= 2 bytes)
+				code, data = 19, append([]byte{byte(rng.UintN(4)), 0}, randBytes(rng, 4)...)
+			}
+		case 9: // reserved / unassigned registry codes
+			code, data = []uint16{0, 4, 20, 21, 26, 100, 4096, 20292, 26946, 65000, 65535}[rng.IntN(11)], free(rng.IntN(24))
+		default: // local / experimental use
+			code, data = uint16(65001+rng.IntN(534)), free(rng.IntN(40))
+		}
+		return OptSpec{code, hex.EncodeToString(data)}
+	}
+	var out []OptSpec
+	seen := map[uint16]bool{}
+	for n := 1 + rng.IntN(3); len(out) < n; {
+		o := one()
+		if seen[o.Code] {
+			continue
+		}
+		seen[o.Code] = true
+		out = append(out, o)
+	}
+	return out
+}
+
 // clientOptions draws a set of client-side EDNS options (each code at most
 // once; all well-formed so that every decoder agrees the packet is valid).
 func clientOptions(rng *rand.Rand, stream bool) []OptSpec {
 	var out []OptSpec
+	if rng.IntN(5) == 0 { // options the server has no rule for, riding along with any of the others
+		out = append(out, foreignOptions(rng)...)
+	}
 	if rng.IntN(3) == 0 { // cookie: client-only, or with a (bogus) server part
 		n := 8
 		switch rng.IntN(4) {
@@ -188,6 +262,17 @@ func clientOptions(rng *rand.Rand, stream bool) []OptSpec {
 		out = append(out, OptSpec{dns.EDNS0PADDING, hex.EncodeToString(append([]byte("C"), randBytes(rng, rng.IntN(40))...))})
 	}
 	rng.Shuffle(len(out), func(i, j int) { out[i], out[j] = out[j], out[i] })
+	return out
+}
+
+// clientOptionsExcept is clientOptions without one code.
+func clientOptionsExcept(rng *rand.Rand, stream bool, code uint16) []OptSpec {
+	var out []OptSpec
+	for _, o := range clientOptions(rng, stream) {
+		if o.Code != code {
+			out = append(out, o)
+		}
+	}
 	return out
 }
 
@@ -550,7 +635,7 @@ func genHeaderCases(rng *rand.Rand, tag string, ecs bool) []rawCase {
 		rawCase{"missing-ar", append(hdr(id(), rd(), 1, 0, 0, 1), q1...), false},
 	)
 	// EDNS version != 0: BADVERS
-	for i := 0; i < 5; i++ {
+	for i := 0; i < 7; i++ {
 		q := &QSpec{Name: name("vers"), Type: dns.TypeA, Class: dns.ClassINET, ID: id(), RD: true,
 			EDNS: true, Version: uint8(1 + rng.UintN(255)), UDPSize: udpSizes[rng.IntN(len(udpSizes))], DO: rng.IntN(2) == 0}
 		switch i {
@@ -560,6 +645,10 @@ func genHeaderCases(rng *rand.Rand, tag string, ecs bool) []rawCase {
 			q.Opts = clientOptions(rng, true)
 		case 4:
 			q.Opts = append(q.Opts, OptSpec{dns.EDNS0PADDING, hex.EncodeToString([]byte("Cpadpad"))}, OptSpec{dns.EDNS0NSID, ""})
+		case 5:
+			q.Opts = foreignOptions(rng)
+		case 6:
+			q.Opts = append(foreignOptions(rng), OptSpec{dns.EDNS0COOKIE, hex.EncodeToString(randBytes(rng, 8))})
 		}
 		k := "badvers"
 		if q.opt(dns.EDNS0SUBNET) != nil {
